@@ -150,8 +150,9 @@ def main():
     # every third case is validated on the reference kernels (validate(..., use_reference_kernel=True))
     refk = tried % 3 == 0
     nrefk += refk
-    for pair_kind, tgt_model, tgt_proj in (("quantized", qmodel, outp), ("self", model, inp)):
-      mname = "mse" if (tried + (pair_kind == "self")) % 2 else "median_diff_ratio"
+    # three pairs: float vs quantized, float vs itself, and the QUANTIZED model vs itself (a reference that holds quantized tensors)
+    for pair_kind, ref_model, inp, tgt_model, tgt_proj in (("quantized", model, inp, qmodel, outp), ("self", model, inp, model, inp), ("quantized-self", qmodel, outp, qmodel, outp)):
+      mname = "mse" if (tried + (pair_kind != "quantized")) % 2 else "median_diff_ratio"
       test_data = {}
       for sg in inp["sigs"]:
         test_data[sg["key"]] = [{n: np.abs(rng.normal(size=inp["subs"][sg["sub"]]["tensors"][t]["shape"])).astype(np.float32) + 0.1 for n, t in sg["ins"]}
@@ -165,7 +166,7 @@ def main():
           q.quantize(impl.get("cal"))
           res = q.validate(test_data, error_metrics=mname, use_reference_kernel=refk)
         else:
-          res = model_validator.compare_model(model, model, test_data, mname, validation_utils.get_validation_func(mname), use_reference_kernel=refk)
+          res = model_validator.compare_model(ref_model, tgt_model, test_data, mname, validation_utils.get_validation_func(mname), use_reference_kernel=refk)
       except Exception as e:  # pylint: disable=broad-except
         chk.violation("validate()/compare_model raised on %s pair: %s: %s" % (pair_kind, type(e).__name__, str(e)[:200]),
                       {"property": "C18", "scenario": scn, "codes": info["codes"], "pair": pair_kind, "metric": mname, "clause": "raises"})
@@ -204,7 +205,7 @@ def main():
         # own two interpreter runs
         acc = {}
         for feeds in test_data[sg["key"]]:
-          a = run_all_tensors(model, feeds, sg["key"], refk)
+          a = run_all_tensors(ref_model, feeds, sg["key"], refk)
           b = run_all_tensors(tgt_model, feeds, sg["key"], refk)
           for n in a:
             if n in b:
@@ -223,7 +224,7 @@ def main():
         obs.append({"id": len(obs) + 1, "gin": sorted(groups["gin"]), "gout": sorted(groups["gout"]), "gconst": sorted(groups["gconst"]),
                     "ginter": sorted(groups["ginter"]), "ref": ref_names, "tgt": tgt_names,
                     "ins": [ref_names[t] for _, t in sg["ins"]], "outs": [ref_names[t] for _, t in sg["outs"]], "consts": consts,
-                    "valok": valok, "iszero": iszero, "self": pair_kind == "self",
+                    "valok": valok, "iszero": iszero, "self": pair_kind != "quantized",
                     "stable": bool(stable), "savedok": bool(savedok), "flat": sorted(flat)})
         meta.append(dict(scenario=scn, codes=info["codes"], pair=pair_kind, metric=mname, reference_kernels=bool(refk), signature=sg["key"], names=names))
   # metric laws on integer vectors (non-negative, zero on equal arguments, MSE symmetric)
@@ -260,11 +261,11 @@ def main():
   chk.cov.update({
       "states": r.distinct + ro.distinct, "transitions": r.generated + ro.generated, "traces_validated_against_impl": len(obs),
       "comparison_values_checked": sum(len(o["valok"]) for o in obs), "metric_law_vectors": nlaw,
-      "evaluations": len(obs), "distinct_nontrivial": sum(1 for o in obs if not o["self"]),
+      "evaluations": len(obs), "distinct_nontrivial": sum(1 for m in meta if m["pair"] != "self"),
       "skipped_nondeterministic_kernel_F15": skipped_f15, "cases_on_reference_kernels": int(nrefk), "stateful_models": nstateful, "int64_bias_models": sum(1 for m in meta if m["scenario"].get("big64")) // 2,
       "rule": "random 2-5 operator scenarios (1-2 signatures) quantized under random per-op modes, plus stateful models (RNN cell with a variable "
-              "state tensor between dynamically quantised FULLY_CONNECTED ops, 3 test inputs); each compared with its quantized version and "
-              "with itself (every third case on the reference kernels), alternating mse / median_diff_ratio, 2 test inputs; non-trivial = quantized pair",
+              "state tensor between dynamically quantised FULLY_CONNECTED ops, 3 test inputs); each compared with its quantized version, "
+              "with itself, and the quantized version with itself (every third case on the reference kernels), alternating mse / median_diff_ratio, 2 test inputs; non-trivial = quantized pair",
       "samples": [dict(pair=m["pair"], metric=m["metric"], groups={k: obs[i][k] for k in ("gin", "gout", "gconst", "ginter")}) for i, m in list(enumerate(meta))[:2]],
       "impl_wall_s": round(time.time() - t0, 1), "exhaustive": False,
   })
